@@ -23,19 +23,56 @@ def _real_worker(case):
     out = []
     for q in case["queries"]:
         out.append(C.run_query(m, q))
-        if case.get("tc") and q[0] in ("args",) and "ok" in out[-1]:
-            pass
+    if case.get("edit"):
+        # second round: change plain parameter values through the public API, ask again
+        try:
+            apply_edit(m, case["edit"])
+        except Exception as e:  # noqa: BLE001
+            return out + [{"err": ["edit:" + type(e).__name__]}] * len(case["queries"])
+        for q in case["queries"]:
+            out.append(C.run_query(m, q))
     return out
 
 
+def apply_edit(m, edit):
+    from fractions import Fraction
+
+    from vlib import fexpr
+
+    vals = {k: fexpr.to_float(Fraction(v)) for k, v in edit["pars"]}
+    if edit["how"] == "update_parameter":
+        for k, v in vals.items():
+            m.update_parameter(k, v)
+    elif edit["how"] == "update_parameters":
+        m.update_parameters(vals)
+    elif edit["how"] == "scale_parameter":
+        old = m.get_parameter_values()
+        for k, v in vals.items():
+            m.scale_parameter(k, v / old[k])
+    else:
+        raise ValueError(edit)
+
+
+def edited_content(case):
+    import copy
+
+    c = copy.deepcopy(case["content"])
+    new = dict(case["edit"]["pars"])
+    for kv in c["pars"]:
+        if kv[0] in new:
+            kv[1] = {"v": new[kv[0]]}
+    return c
+
+
 def _spec(case):
-    sp = C.Spec(case["content"])
     out = []
-    for q in case["queries"]:
-        try:
-            out.append(sp.answer(q))
-        except Inexact:
-            out.append("inexact")
+    for content in [case["content"]] + ([edited_content(case)] if case.get("edit") else []):
+        sp = C.Spec(content)
+        for q in case["queries"]:
+            try:
+                out.append(sp.answer(q))
+            except Inexact:
+                out.append("inexact")
     return out
 
 
@@ -71,13 +108,24 @@ def evaluate(cases, use_driver=True):
     Rs = pool().map(_real_worker, cases, chunksize=8)
     Ss = [_spec(c) for c in cases]
     if use_driver:
-        Ms = driver.call_batch([{"op": "core", "content": c["content"], "queries": c["queries"]} for c in cases])
+        reqs, owner = [], []
+        for i, c in enumerate(cases):
+            reqs.append({"op": "core", "content": c["content"], "queries": c["queries"]})
+            owner.append(i)
+            if c.get("edit"):
+                reqs.append({"op": "core", "content": edited_content(c), "queries": c["queries"]})
+                owner.append(i)
+        res = driver.call_batch(reqs)
+        Ms = [[] for _ in cases]
+        for i, r in zip(owner, res):
+            Ms[i] = Ms[i] + r
     else:
         Ms = [None] * len(cases)
     out = []
     for c, R, M, S in zip(cases, Rs, Ms, Ss):
-        R = [canon_R(q, r) for q, r in zip(c["queries"], R)]
-        M2 = None if M is None else [canon_M(q, r) for q, r in zip(c["queries"], M)]
+        qs = c["queries"] * (2 if c.get("edit") else 1)
+        R = [canon_R(q, r) for q, r in zip(qs, R)]
+        M2 = None if M is None else [canon_M(q, r) for q, r in zip(qs, M)]
         out.append((R, M2, S))
     return out
 
